@@ -58,7 +58,8 @@ def make_case(seed, shard, i):
         rows.append(["1", "2", "x", "y"])
     from vfy import cps
 
-    return {"members": members, "rows": rows, "method": cps.METHODS[i % 6]}
+    methods = cps.METHODS + ["next_paths:collect", "next_by_line:collect"]
+    return {"members": members, "rows": rows, "method": methods[i % len(methods)]}
 
 
 def run_case(case, agg):
@@ -71,7 +72,12 @@ def run_case(case, agg):
     cps.add_file(cs, "data", rows)
     texts = [cps.member_text(m["prog"], ident=m["ident"], extra_comment=m["extra"]) for m in members]
     cs.paths_manager.add_named_paths(name="grp", paths=texts)
-    kw = {"collect": True} if (method == "next_paths" and case.get("collect_next", False)) else {}
+    kw = {}
+    collecting = method in ("collect_paths", "collect_by_line")
+    if method.endswith(":collect"):
+        method = method.split(":")[0]
+        kw = {"collect": True}
+        collecting = True
     with hooks.recording(agg) as rec:
         lines, exc = cps.run_method(cs, method, "grp", "data", **kw)
     w = {"members": texts, "rows": rows, "method": method}
@@ -93,7 +99,7 @@ def run_case(case, agg):
     collected = []
     for r_ in results:
         evs = by_id.get(id(r_.csvpath), [])
-        if method in ("collect_paths", "collect_by_line"):
+        if collecting:
             collected.append([ev["line"] for ev in evs if ev["ret"]])
         else:
             collected.append(None)
